@@ -1207,6 +1207,24 @@ def run(prop, tier, seed):
             if len(data) > 500000 or done >= 3:
                 continue
             try:
+                probs = degenerate_locations_scenario(data, spec)
+            except Exception as ex:  # noqa: BLE001
+                probs = ["the history raised %s" % err_class(ex)]
+            if probs is None:
+                continue
+            done += 1
+            hist = "add_locations([named (0,0,0,0), named (640,640,640,640), (0,0,1,1)]) ; save ; reload ; add_locations([ordinary]) ; save"
+            out.case("degenerate-locations-then-edit", ("degloc:" + tag).encode() + data[:64], sample={"base": tag, "history": hist, "problems": probs[:2]})
+            for pr in probs[:2]:
+                out.violations.append({"tag": tag, "kind": "locations of no extent, then another edit", "history": hist,
+                                       "oracle": "every location the map being edited holds — also a named one of no extent — keeps its slot and its values when another location is added", "problem": pr, "key": None,
+                                       "hex": data.hex() if len(data) < 40000 else None, "fixture": tag if tag.startswith("fixture") else None})
+    if prop == "C07":
+        done = 0
+        for tag, data in base_maps(rng, spec, tier):
+            if len(data) > 500000 or done >= 3:
+                continue
+            try:
                 probs = two_variants_scenario(data, spec)
             except Exception as ex:  # noqa: BLE001
                 probs = ["the history raised %s" % err_class(ex)]
@@ -1322,6 +1340,49 @@ def editor_reuse_scenario(data, spec):
     pings = [a["_location_id"] for t2 in trigs[-1:] for a in t2["acts"] if a["_action_id"] == 28]
     if "Y" in where and pings != [where["Y"]]:
         probs.append("the trigger authored with location Y refers to slot %s, Y is in slot %s" % (pings, where.get("Y")))
+    return probs
+
+
+def degenerate_locations_scenario(data, spec):
+    """real code only: locations of the shapes maps really hold besides ordinary rectangles — a named location of no
+    extent parked at the origin (a "scratch" location that triggers move around), a named location of no extent
+    elsewhere, a one-pixel one — are added, the map is saved and loaded again, and an ordinary location is added.
+    Everything the first save stored is what already exists at the second edit: it must sit in its slot unchanged."""
+    from richchk.editor.richchk.rich_chk_editor import RichChkEditor
+    from richchk.editor.richchk.rich_mrgn_editor import RichMrgnEditor
+    from richchk.model.richchk.mrgn.rich_location import RichLocation
+    from richchk.model.richchk.mrgn.rich_mrgn_section import RichMrgnSection
+    from richchk.model.richchk.str.rich_string import RichString
+
+    cio, rio = shared_io()
+    base_view = refchk.game_view(data, spec)
+    if len(base_view["locs"]) > 248:
+        return None
+    rich = rio.decode_chk(cio.decode_chk_binary_data(data))
+    mrgn = find_section(rich, RichMrgnSection)
+    if mrgn is None:
+        return None
+    first = [RichLocation(0, 0, 0, 0, RichString("scratch at origin")), RichLocation(640, 640, 640, 640, RichString("scratch point")),
+             RichLocation(0, 0, 1, 1, RichString("one pixel"))]
+    m1, _ = RichMrgnEditor().add_locations(first, mrgn)
+    saved1 = cio.encode_chk_to_bytes(rio.encode_chk(RichChkEditor().replace_chk_section(m1, rich)))
+    v1 = refchk.game_view(saved1, spec)
+    probs = []
+    for loc in first:
+        r = (loc.left_x1, loc.top_y1, loc.right_x2, loc.bottom_y2)
+        name = loc.custom_location_name.value.encode().hex()
+        if not [sl for sl, c in v1["locs"].items() if tuple(c[:4]) == r and c[4] == name]:
+            probs.append("the authored location %r %r is not in the saved map" % (r, loc.custom_location_name.value))
+    rich2 = rio.decode_chk(cio.decode_chk_binary_data(saved1))
+    m2, _ = RichMrgnEditor().add_locations([RichLocation(96, 96, 192, 160, RichString("ordinary area"))], find_section(rich2, RichMrgnSection))
+    saved2 = cio.encode_chk_to_bytes(rio.encode_chk(RichChkEditor().replace_chk_section(m2, rich2)))
+    v2 = refchk.game_view(saved2, spec)
+    for sl, c in sorted(v1["locs"].items()):
+        if v2["locs"].get(sl) != c:
+            probs.append("location slot %d of the map being edited changed: %r -> %r" % (sl, c, v2["locs"].get(sl)))
+            break
+    if not [sl for sl, c in v2["locs"].items() if tuple(c[:4]) == (96, 96, 192, 160)]:
+        probs.append("the location added by the second edit is not in the saved map")
     return probs
 
 
